@@ -261,18 +261,35 @@ def rule_affine(ctx: Ctx, rid: str, which=('P2D', 'D2P'), scope=None):
     return out
 
 
+def solver_evolvent_constructions(ctx: Ctx):
+    """(path, new-event) for every Evolvent construction on the paths of Solver.__init__, looking through
+    factories (functions / class methods that lead to Evolvent.__init__); argument values are in terms of the
+    Solver constructor's own parameters."""
+    e = evo_of(ctx)
+    roles = C.roles_of(ctx)
+    init = e.cls.methods['__init__']
+    iq = roles.fq(init)
+    si = ctx.ix.func('Solver.__init__')
+    ex = ctx.explorer(inline_ctor=False, inline=lambda f, st: f.name != '__init__' and iq in roles.reach(f))
+    out = []
+    for p in C.normal_paths(ex.explore(si)):
+        for ne in C.new_events(p):
+            if ne.d['cls'].is_subclass_of(e.cls):
+                out.append((p, ne))
+    return si, out
+
+
 def rule_bounds_binding(ctx: Ctx, rid: str):
     """Solver binds the problem's lower/upper bounds to the evolvent's lower/upper parameters, which are stored
     (copied) into the attributes the affine map reads."""
     e = evo_of(ctx)
     init = e.cls.methods['__init__']
     names = init.param_names[1:]
-    si = ctx.ix.func('Solver.__init__')
-    ex = ctx.explorer(inline_ctor=False)
+    si, cons = solver_evolvent_constructions(ctx)
     prob = var(si.param_names[1])
     n = 0
-    for p in C.normal_paths(ex.explore(si)):
-        for ne in C.new_events(p, 'Evolvent'):
+    for p, ne in cons:
+        if True:
             n += 1
             bound = dict(zip(names, ne.d['args']))
             bound.update(ne.d['kwargs'])
